@@ -120,11 +120,42 @@ let do_fe () : string =
   let h = times (int ()) (fun () -> let b = pos () in let l = pos () in (b, l)) in
   if C.validate_flagelim h before after then "1" else "0"
 
+(* ---- argument parsing: "ap <which> <nparams> (kind name posonly)* <npos> <nkws> names..."  which = w|g|p|c *)
+let rec nat_of_int (n : int) : C.nat = if n <= 0 then C.O else C.S (nat_of_int (n - 1))
+let kind_of = function
+  | 0 -> C.ARG_POS | 1 -> C.ARG_OPT | 2 -> C.ARG_STAR | 3 -> C.ARG_NAMED | 4 -> C.ARG_STAR2 | _ -> C.ARG_NAMED_OPT
+let src_s = function
+  | None -> "D" | Some (C.SPos i) -> "P" ^ string_of_int (int_of_nat i) | Some (C.SKw n) -> "K" ^ string_of_int (int_of_nat n)
+let do_ap () : string =
+  let which = next () in
+  let ps = times (int ()) (fun () ->
+      let k = kind_of (int ()) in let n = nat_of_int (int ()) in let po = int () = 1 in
+      { C.pk = k; pname = n; posonly = po }) in
+  let np = nat_of_int (int ()) in
+  let kws = times (int ()) (fun () -> nat_of_int (int ())) in
+  let c = { C.npos = np; kws = kws } in
+  if which = "c" then (match C.cpython_bind (List.map C.to_formal ps) c with C.BindOk -> "ok" | C.TypeError -> "T")
+  else
+    let r = match which with
+      | "w" -> C.parse_wrapper ps c
+      | "g" -> C.parse_general (C.make_parser ps) np kws
+      | _ -> C.py_bind ps c in
+    match r with
+    | None -> "T"
+    | Some b ->
+      let slot (p : C.param) =
+        match p.C.pk with
+        | C.ARG_STAR -> "(" ^ String.concat "," (List.map (fun i -> "P" ^ string_of_int (int_of_nat i)) b.C.b_star) ^ ")"
+        | C.ARG_STAR2 -> "{" ^ String.concat "," (List.map (fun n -> string_of_int (int_of_nat n)) b.C.b_kwstar) ^ "}"
+        | _ -> src_s (C.slot_of0 b.C.b_slots p.C.pname) in
+      String.concat "|" (List.map slot ps)
+
 let handle (ws : string list) : string =
   match ws with
   | "vt" :: r -> toks := r; do_vt ()
   | "vd" :: r -> toks := r; do_vd ()
   | "cp" :: r -> toks := r; do_cp ()
   | "fe" :: r -> toks := r; do_fe ()
+  | "ap" :: r -> toks := r; do_ap ()
   | _ -> "!BAD"
 let () = main handle
